@@ -44,7 +44,8 @@ Record scenario : Set := mkScenario {
   s_cause : cause;
   s_phase : phase;
   s_reqs : N;               (* small requests answered before the phase is entered *)
-  s_flood : N               (* notifies pushed by the flooding handler (PQueue) *)
+  s_flood : N;              (* notifies pushed by the flooding handler (PQueue) *)
+  s_sibling : bool          (* a sibling connection under the same server / trigger ended earlier *)
 }.
 
 Inductive exitc : Set := XCause (c : cause) | XHookPanic (i : nat).
@@ -386,3 +387,68 @@ Definition c15_obs_match (m i : obs) : bool :=
   (if existsb is_WR (o_wire m) then list_eqb wframe_eqb (o_wire m) (o_wire i)
    else is_prefix (o_wire i) (o_wire m)) &&
   optb_eqb (o_seen m) (o_seen i).
+
+(** ** a connection that survives a sibling
+
+    Connections are independent: [run] does not look at [s_sibling].  The
+    staggered cases of the harness end one connection while its siblings (same
+    server, same shutdown trigger) stay in their phase, and observe each
+    survivor BEFORE its own exit cause is raised: the events of its run before
+    [EArrive]. *)
+Definition set_sibling (b : bool) (s : scenario) : scenario :=
+  mkScenario (s_mode s) (s_hs s) (s_ctx s) (s_pre s) (s_reg s) (s_post s) (s_xh s) (s_dpre s) (s_dpost s)
+             (s_cause s) (s_phase s) (s_reqs s) (s_flood s) b.
+
+Definition is_arrive (e : ev) : bool := match e with EArrive _ => true | _ => false end.
+
+Fixpoint before_arrive (tr : list ev) : list ev :=
+  match tr with
+  | [] => []
+  | e :: r => if is_arrive e then [] else e :: before_arrive r
+  end.
+
+Record mobs : Set := mkMobs {
+  m_disc : N;               (* disconnect callbacks so far *)
+  m_present : bool;         (* registry.get(id) *)
+  m_aliases : N;            (* resolving aliases *)
+  m_seen : option bool;     (* parked handler: saw cancellation?  None: none parked *)
+  m_alive : bool;           (* a fresh request is answered *)
+  m_trigger : bool;         (* the connection's token / the embedder's ShutdownToken reads cancelled *)
+  m_new : bool              (* a connection opened now runs its connect hooks and is served *)
+}.
+
+Definition is_disc_ev (e : ev) : bool := match e with EDisconnect _ => true | _ => false end.
+Definition is_cancel_ev (e : ev) : bool := match e with ECancel => true | _ => false end.
+Definition is_reader_ev (e : ev) : bool := match e with EReaderStart => true | _ => false end.
+Definition is_exit_ev (e : ev) : bool := match e with EExit _ => true | _ => false end.
+
+Definition observe_mid (tr : list ev) : mobs :=
+  let v := rv_after rv0 tr in
+  mkMobs (N.of_nat (length (filter is_disc_ev tr)))
+         (rv_present v) (N.of_nat (length (rv_keys v)))
+         (if existsb is_offstart tr then Some (existsb is_offsees tr) else None)
+         (existsb is_reader_ev tr && negb (existsb is_exit_ev tr))
+         (existsb is_cancel_ev tr)
+         true.
+
+Definition model_mid (s : scenario) : mobs := observe_mid (before_arrive (run s)).
+
+(** from the property text: the connection has not ended, so no disconnect
+    callback has run, the peer and all its aliases are registered, no handler
+    has been told to stop, it still serves, and nothing a sibling did reached
+    the shared trigger or later connections *)
+Definition ok_mid (s : scenario) (m : mobs) : bool :=
+  let ins := inserted s (length (oh s)) in
+  (m_disc m =? 0) && Bool.eqb (m_present m) ins &&
+  (m_aliases m =? (if ins then nalias (oh s) else 0)) &&
+  (match m_seen m with Some true => false | _ => true end) &&
+  m_alive m && negb (m_trigger m) && m_new m.
+
+Definition c15_stag_wf (s : scenario) : bool :=
+  c15_wf s && s_hs s && negb (existsb is_panic (s_pre s ++ s_post s ++ s_xh s)) &&
+  (match s_phase s with PIdle | POffReader => true | _ => false end).
+
+Definition mobs_eqb (a b : mobs) : bool :=
+  (m_disc a =? m_disc b) && Bool.eqb (m_present a) (m_present b) && (m_aliases a =? m_aliases b) &&
+  optb_eqb (m_seen a) (m_seen b) && Bool.eqb (m_alive a) (m_alive b) &&
+  Bool.eqb (m_trigger a) (m_trigger b) && Bool.eqb (m_new a) (m_new b).
